@@ -13,6 +13,9 @@ import MW.Lemmas.Sign
 import MW.Lemmas.SignOrder
 import MW.Lemmas.SignVM
 import MW.Lemmas.SignVMEx
+import MW.Lemmas.SignSeq
+import MW.Lemmas.SignSound
+import MW.Model.SignTab
 namespace MW.Props.C03
 open MW.Model.Sign MW.Lemmas.Sign
 
@@ -341,5 +344,103 @@ example : (match (signTx (vmEngine tinyCodec) tinyEnv (Lock.locked tinyCrypto) 7
     | .error .script => true | _ => false) = true := by decide
 
 end VM
+
+-- ------------------------------------------------------------------ round 5: ScriptMASSip2, the engine in closed form, the driver's instance
+
+section Round5
+open MW MW.Model.ScriptVM MW.Lemmas.ScriptVMParse MW.Lemmas.ScriptVMMain MW.Lemmas.SignVM MW.Lemmas.SignSeq
+open MW.Model.WithdrawSeq
+
+/-- vm_engine_iff: the engine `vmEngine K` of the model (NewEngine + Execute as signWitnessTx calls it: StandardVerifyFlags, plus
+    ScriptMASSip2 exactly for the class `bind2` = binding output of a previous transaction at a height ≥ the warm-up height) in
+    CLOSED FORM, for BOTH settings of the flag: it accepts the witness the model builds iff the output is a template, the key
+    hashes to its script hash, the sequence rule `seqOk` of the class holds and the signature verifies.  (`→`: what the
+    engine demands; `←`: the former law `p2wsh`.) -/
+theorem vm_engine_iff (K : Codec C) (po : PrevOut Bytes) (tx : STx) (i : Nat) (w : Witness C) (inp : TxIn Unit)
+    (hinp : tx.ins[i]? = some inp) (hs : inp.seq < 2^64) (hl : po.addr.length = 32)
+    (hf : ∀ f, po.cls = .stk f → f + 1 < 2^32) :
+    (vmEngine K).ok po tx i (some w) = true ↔
+      po.cls ≠ .other ∧ (vmEngine K).hashOf w.pk = po.addr ∧ seqOk po.cls inp.seq = true ∧
+      C.verify w.pk ((vmEngine K).sighash tx i w.flag w.pk po.amt) w.sig = true :=
+  vmOk_iff K po tx i w inp hinp hs hl hf
+
+/-- the sequence hypothesis of `sign_complete_vm` is NECESSARY (the engine refuses otherwise) … -/
+theorem sign_seq_necessary (K : Codec C) (po : PrevOut Bytes) (tx : STx) (i : Nat) (w : Witness C) (inp : TxIn Unit)
+    (hinp : tx.ins[i]? = some inp) (hs : inp.seq < 2^64) (hl : po.addr.length = 32)
+    (hf : ∀ f, po.cls = .stk f → f + 1 < 2^32) (h : (vmEngine K).ok po tx i (some w) = true) :
+    seqOk po.cls inp.seq = true :=
+  vmOk_seq_necessary K po tx i w inp hinp hs hl hf h
+
+/-- … and `seqOk` IS the rule `<lock> OP_CHECKSEQUENCEVERIFY` of the VM: staking (lock = frozen + 1) and binding under
+    ScriptMASSip2 (lock = MASSIP0002BindingLockedPeriod) -/
+theorem seq_rule_staking (f s : Nat) (hf : f + 1 < 2^32) (hs : s < 2^64) : seqOk (.stk f) s = true ↔ SeqRule s (f + 1) :=
+  seqOk_stk_iff f s hf hs
+
+theorem seq_rule_massip2 (s : Nat) (hs : s < 2^64) : seqOk .bind2 s = true ↔ SeqRule s Gen.Vm.bindingLockedPeriod :=
+  seqOk_bind2_iff s hs
+
+/-- C10 ↔ C03: the sequence number constructTxIn / addTxIn give an input (`MW.Model.WithdrawSeq.seqChoice`, C10's
+    `withdraw_sequence`) meets the sequence rule signWitnessTx's engine run enforces – every template class, every lock time,
+    BOTH sides of the MASSIP-2 warm-up height; whereas the default sequence is refused above it -/
+theorem withdraw_seq_signable (lt : Nat) (c : Model.Ledger.Cls) (h : Nat) (hc : c ≠ .raw)
+    (hf : ∀ f, c = .stk f → f + 1 < 2^32) :
+    seqOk (Model.SignTab.classAt Gen.Vm.massip2WarmUpHeight c h) (seqChoice lt c h) = true :=
+  seqChoice_signable lt c h hc hf
+
+theorem default_seq_refused_massip2 (lt : Nat) : seqOk .bind2 (defaultSeq lt) = false := defaultSeq_refused_bind2 lt
+
+/-- the warm-up height is a VALUE of a run (op `warmup`): a run with the height lowered to `W` is the model with the regenerated
+    constant at heights translated by the difference – this is how the drivers evaluate `seqChoice` / `classAt` -/
+theorem warmup_is_a_translation (W lt : Nat) (c : Model.Ledger.Cls) (h : Nat) (hW : W ≤ Gen.Vm.massip2WarmUpHeight) :
+    enforceWarmUp (h + (Gen.Vm.massip2WarmUpHeight - W)) = decide (W ≤ h) ∧
+    Model.SignTab.classAt W c h = Model.SignTab.classAt Gen.Vm.massip2WarmUpHeight c (h + (Gen.Vm.massip2WarmUpHeight - W)) ∧
+    (c ≠ .raw → (∀ f, c = .stk f → f + 1 < 2^32) →
+      seqOk (Model.SignTab.classAt W c h) (seqChoice lt c (h + (Gen.Vm.massip2WarmUpHeight - W))) = true) :=
+  ⟨enforceWarmUp_shift W h hW, classAt_shift W c h hW, seqChoice_signable_shift W lt c h hW⟩
+
+example : seqOk .bind2 4294967294 = true ∧ seqOk .bind2 (2^64 - 1) = false ∧ seqOk (.stk 3) 4 = true ∧ seqOk (.stk 3) 3 = false := by decide
+example : (4294967294 : Nat) < 2^64 ∧ (3 : Nat) + 1 < 2^32 ∧ (10 : Nat) ≤ Gen.Vm.massip2WarmUpHeight := by decide
+
+/-- sign_success_facts: the SOUNDNESS converse of `sign_complete_vm` – a successful signTx (VM model as engine) implies for
+    EVERY input: it spends a template output, the returned witness' key hashes (through the 1-of-1 redeem script) to the script
+    hash of that output, the sequence rule of the class (incl. the MASSIP-2 class) holds for the input's sequence number and the
+    signature verifies against the signature hash of the redeem script: the hypotheses of `Signable` other than key possession
+    are NECESSARY. (64-bit sequence numbers, 32-byte script hashes, frozen periods below 2^32 − 1.) -/
+theorem sign_success_facts (K : Codec C) (env : Env C Bytes) (L : Lock C) (p : C.Pass) (fl : Flag)
+    (tx tx' : Tx (Witness C)) (h : (signTx (vmEngine K) env L p fl tx).2 = .ok tx')
+    (hseq : ∀ inp ∈ tx.ins, inp.seq < 2^64)
+    (hres : ∀ op po, env.resolve op = .ok po → po.addr.length = 32 ∧ ∀ f, po.cls = .stk f → f + 1 < 2^32) :
+    ∀ (j : Nat) (inp : TxIn (Witness C)), tx.ins[j]? = some inp →
+      ∃ po inp' w, env.resolve inp.prev = .ok po ∧ tx'.ins[j]? = some inp' ∧ inp'.wit = some w ∧
+        po.cls ≠ .other ∧ K.sha256 (redeem1 (K.encPK w.pk)) = po.addr ∧ seqOk po.cls inp.seq = true ∧
+        C.verify w.pk (K.sighash tx.strip j po.amt (redeem1 (K.encPK w.pk)) (flagByte w.flag)) w.sig = true :=
+  MW.Lemmas.SignSound.sign_success_facts K env L p fl tx tx' h hseq hres
+
+/-- THE DRIVER'S INSTANCE.  The `sec` driver answers `sign` / `autosign` ops by `signTx (tabEngine T) …` where, for every oracle
+    table `T` (any list of tokens), `tabEngine T` is `vmEngine (tabCodec T)`: the script VM model over the tabled real bytes.
+    `tabCrypto T` / `tabCodec T` are `Crypto` / `Codec` structures (their law fields are proved for every `T`), so every theorem
+    above applies to every driver run; here `sign_checked_vm` and `pass_gate_vm` spelled out for it. -/
+theorem drv_engine_is_vm (T : Model.SignTab.Tab) : Model.SignTab.tabEngine T = vmEngine (Model.SignTab.tabCodec T) := rfl
+
+theorem drv_sign_checked (T : Model.SignTab.Tab) (env : Env (Model.SignTab.tabCrypto T) Bytes)
+    (L : Lock (Model.SignTab.tabCrypto T)) (p : String) (fl : Flag)
+    (tx tx' : Tx (Witness (Model.SignTab.tabCrypto T)))
+    (h : (signTx (Model.SignTab.tabEngine T) env L p fl tx).2 = .ok tx') :
+    ∀ (j : Nat) (inp : TxIn (Witness (Model.SignTab.tabCrypto T))), tx.ins[j]? = some inp →
+      ∃ po inp', env.resolve inp.prev = .ok po ∧ tx'.ins[j]? = some inp' ∧
+        vmOk (Model.SignTab.tabCodec T) po tx'.strip j inp'.wit = true :=
+  sign_checked_vm (Model.SignTab.tabCodec T) env L p fl tx tx' h
+
+theorem drv_wrong_pass (T : Model.SignTab.Tab) (env : Env (Model.SignTab.tabCrypto T) Bytes) (pass : String)
+    (hp : env.params = pass) (fl : Flag) (tx : Tx (Witness (Model.SignTab.tabCrypto T))) (p : String) (hne : p ≠ pass)
+    (hs : Signable (Model.SignTab.tabEngine T) env fl tx) (hne' : tx.ins ≠ []) :
+    (signTx (Model.SignTab.tabEngine T) env (Lock.locked _) p fl tx).2 = .error .pass := by
+  obtain ⟨r, hr, _, _, h3⟩ := pass_gate_vm (Model.SignTab.tabCodec T) env pass hp (Lock.locked _)
+    (lockCons_locked (C := Model.SignTab.tabCrypto T) pass) [(p, fl, tx)] 0 p fl tx rfl
+  have : r = (signTx (Model.SignTab.tabEngine T) env (Lock.locked _) p fl tx).2 := by
+    simp [attempts] at hr; exact hr.symm
+  rw [← this]; exact h3 hne hs hne'
+
+end Round5
 
 end MW.Props.C03
